@@ -304,9 +304,7 @@ def pidZeroRefused (a : Ask) (o : Obs) : Prop :=
 instance (a : Ask) (o : Obs) : Decidable (pidZeroRefused a o) := by
   unfold pidZeroRefused; infer_instance
 
-def extraViolations (a : Ask) (o : Obs) : List String :=
-  (if selfWait a o then [] else ["selfWait"]) ++
-  (if pidZeroRefused a o then [] else ["pidZeroRefused"])
+/- `extraViolations` (which also evaluates the third-round clause `valueErrorJustified`) is defined at the end of the file -/
 
 /-! ### `psutil.Popen.wait`: the same promises as `Process.wait`, plus agreement with
     `subprocess.Popen.returncode` (the attribute every `subprocess` method reads) -/
@@ -368,5 +366,68 @@ def violationsC (a : Ask) (o : Obs) (δ : Rat) (clean : Bool) : List String :=
   (if intervalsOk o then [] else ["intervals"]) ++
   (if zeroNeverSleeps a o then [] else ["zeroNeverSleeps"]) ++
   (if comesBack a o then [] else ["comesBack"])
+
+/-! ### third round (audit-driven) -/
+
+/-- the answer the property promises once the process has ended: the value of the cause its status
+    word encodes (a child), None (anything waitpid does not know as a child) -/
+def answered (env : Env) (o : Outcome) : Prop :=
+  match env.kind with
+  | .child st => ∀ cause ∈ allCauses, cause.status = st → o = .code cause.value
+  | _ => o = .none
+
+instance (env : Env) (o : Outcome) : Decidable (answered env o) := by
+  unfold answered; split <;> infer_instance
+
+/-- `wait_pid` names ONE process: a pid that is not positive (0 = the caller's process group, -1 = any
+    child, -g = process group g for waitpid(2)) is refused at once — nothing is waited for, nobody's
+    exit status is consumed -/
+def nonPositivePidRefused (pid : Int) (start : Rat) (o : Obs) : Prop :=
+  pid ≤ 0 → o.out = .valueError ∧ o.ret = start ∧ o.sleeps = []
+
+instance (pid : Int) (start : Rat) (o : Obs) : Decidable (nonPositivePidRefused pid start o) := by
+  unfold nonPositivePidRefused; infer_instance
+
+/-- the status word is no termination report (stopped / continued / garbage): wait(2) hands such a
+    word out only to a caller that asked for it with WUNTRACED / WCONTINUED -/
+def notTermination (st : Nat) : Prop := ∀ cause ∈ allCauses, cause.status ≠ st
+
+instance (st : Nat) : Decidable (notTermination st) := by unfold notTermination; infer_instance
+
+/-- ValueError is an answer only to arguments that must be refused (pid 0, negative timeout) or to a
+    child whose FINAL status word is not a termination report; never for a process that is merely
+    still running (or stopped) -/
+def valueErrorJustified (a : Ask) (o : Obs) : Prop :=
+  o.out = .valueError →
+    a.pid = 0 ∨ negative a.timeout = true ∨
+    match a.env.kind with
+    | .child st => notTermination st ∧ endedBy a.env o.ret
+    | _ => False
+
+instance (a : Ask) (o : Obs) : Decidable (valueErrorJustified a o) := by
+  unfold valueErrorJustified
+  refine @instDecidableForall _ _ _ (@instDecidableOr _ _ _ (@instDecidableOr _ _ _ ?_))
+  split <;> infer_instance
+
+/-- what a callback invocation must find on the object it is handed: `returncode` already set, to the
+    value of the cause (a child) / None (not a child); one invocation per entry of the callback log -/
+def callbackSees (a : WPAsk) (seen : List CbView) (cbLog : List Nat) : Prop :=
+  seen.map (·.pid) = cbLog ∧
+  ∀ e ∈ seen,
+    match e.rc, (a.envOf e.pid).kind with
+    | none, _ => False
+    | some v, .child st => ∀ cause ∈ allCauses, cause.status = st → v = some cause.value
+    | some v, _ => v = none
+
+instance (a : WPAsk) (seen : List CbView) (cbLog : List Nat) : Decidable (callbackSees a seen cbLog) := by
+  unfold callbackSees
+  refine @instDecidableAnd _ _ _ (@List.decidableBAll _ _ (fun e => ?_) _)
+  split <;> infer_instance
+
+
+def extraViolations (a : Ask) (o : Obs) : List String :=
+  (if selfWait a o then [] else ["selfWait"]) ++
+  (if pidZeroRefused a o then [] else ["pidZeroRefused"]) ++
+  (if valueErrorJustified a o then [] else ["valueErrorJustified"])
 
 end Psutil.C15.Spec
